@@ -10,7 +10,7 @@ CLAIMED = {
          "Every one of the ~5200 obligations (each knownMsgNums key, each _fields row, each constructor value, each container member, all 256 base-type bytes, all 512 types.Fit codes) is enumerated from the source and discharged; the space is finite and visible in the source, so exhaustive enumeration is a proof of the table-level statement.",
          "Trusted: go/types; the independent FIT base-type table in checker/c15.go; the SSA transfer functions of checker/eval.go; documented reflect panic conditions. Not decided: agreement of field numbers with SDK 21.115 (workbook not in the repository).",
          "DESIGN.md 4 C15"),
- "C06": ("other", "encoder-definition x validator agreement (exact folding of validateFieldDef over every definition Encode can emit for every hosted profile row), inverse-conversion shape rules on SSA/syntax for time, local time and coordinates, string clamp/terminator pairing, array-padding rules, unset-field flow rule; encoder byte-order discipline (every multi-byte write through encoder.arch); list written is the file's own list in counter order; decoder arm table and C18 slice/guard rules run as premises (report rule filter)",
+ "C06": ("other", "encoder-definition x validator agreement (exact folding of validateFieldDef over every definition Encode can emit for every hosted profile row), inverse-conversion shape rules on SSA/syntax for time, local time and coordinates, string clamp/terminator pairing, array-padding rules, unset-field flow rule; encoder byte-order discipline (every multi-byte write through encoder.arch); list written is the file's own list in counter order; decoder arm table and C18 slice/guard rules run as premises (report rule filter); scratch-buffer escape rule and router shape rules of the decoder",
          "Decides structural necessary conditions that tie Encode and Decode together and are claimed nowhere else: every definition the encoder can emit for a hosted field is accepted by the decoder's validator for that very row; the per-kind conversions of the two halves are inverse shapes; strings are clamped/terminated as the decoder scans them; short arrays are padded with the invalid value the decoder's element count and invalid table agree with; no message reaches a container other than through File.add. Breaking any of these breaks the round trip for some in-domain File. Field-for-field equality itself is a statement about run-time values and is NOT decided.",
          "Trusted: exact folding of validateFieldDef (checker/eval.go); time.Time Zone/In/FixedZone semantics; results of C15 (tables) and C17 (coordinate constructors). Not decided: value equality over Files; the component rule (C18) and timestamps over sequences (C12).",
          "DESIGN.md 4 C06"),
@@ -42,7 +42,7 @@ CLAIMED = {
          "Decides the structural conditions the CRC verdicts rest on for every path: every byte taken from the reader is fed to the running checksum, every integrity verdict is a zero-residue test on a fed hash (or a documented exemption edge), the three header layouts agree, the encoder hashes what it writes. Together with C14 and the CRC burst theorem this gives the detection clause on paper; the input-output statement itself is not observed.",
          "Trusted: io.ReadFull/binary.Read/io.CopyN/io.Reader contracts as summarised; CRC burst-error theorem. Not decided: the quantified corruption statement as an input-output fact; corruptions that alter which bytes are parsed are argued on paper only.",
          "DESIGN.md 4 C04"),
- "C10": ("other", "who-reads census, exact/capped read shape rules (min-phi recognition, edge-derived constant sets), counter pairing, readFull exact-fill, single-store rule for the limit, loop-exit dominance, per-file decoder state (fresh allocation or complete re-initialisation, field by field) (SSA + call graph); no map update / element store through decodeOptions members on the decode path",
+ "C10": ("other", "who-reads census, exact/capped read shape rules (min-phi recognition, edge-derived constant sets), counter pairing, readFull exact-fill, single-store rule for the limit, loop-exit dominance, per-file decoder state (fresh allocation or complete re-initialisation, field by field) (SSA + call graph); no map update / element store through decodeOptions members on the decode path; read-feed pairing of every read site",
          "Decides the framing discipline on every path and for every chunking: reads are exact or capped by the remaining data size, the consumed-byte counter is advanced exactly with the read position, success requires n >= limit then a 2-byte CRC read, chained files get a fresh decoder. Chunking cannot matter because no rule depends on how many bytes a Read returns.",
          "Trusted: io.ReadFull/binary.Read/io.CopyN/io.Reader contracts. Not decided: equality of chained results with stand-alone decoding (paper consequence with C08); n <= limit is implied by cap + counting but not computed.",
          "DESIGN.md 4 C10"),
@@ -70,19 +70,19 @@ CLAIMED = {
          "Decides the structural well-formedness conditions: promised post-state stored, data size taken after the last record, header bytes in the decoder's classes, definition layout, declared size = emitted size for every table class, each data record preceded by its own written definition. These hold for every File because they are properties of the encoder's code and the constant table. Wire values and conformance under an independent parser are not observed.",
          "Trusted: encoding/binary.Write size semantics; C15 and C13 results. Not decided: value equality on the wire; custom binary.ByteOrder implementations.",
          "DESIGN.md 4 C05"),
- "C07": ("other", "census of every error origin and potential panic site in the functions reachable from Encode (SSA + call graph), each classified by its guarding condition and discharged by constant-table facts about the hosted message types; reflect precondition table; expansion order/guard clauses (idempotence); every-visited-message-is-written dominance rules and profile-row identity in the definition builder; record-layout and no-silent-skip rules of C05 run here as well; origin-based nil-safety analysis over Encode's scope (local cells, captured variables, collections of pointers); Encode-reachable methods of message types (class hierarchy for reflection-fed interface calls) do not write their receiver",
+ "C07": ("other", "census of every error origin and potential panic site in the functions reachable from Encode (SSA + call graph), each classified by its guarding condition and discharged by constant-table facts about the hosted message types; reflect precondition table; expansion order/guard clauses (idempotence); every-visited-message-is-written dominance rules and profile-row identity in the definition builder; record-layout and no-silent-skip rules of C05 run here as well; origin-based nil-safety analysis over Encode's scope (local cells, captured variables, collections of pointers); Encode-reachable methods of message types (class hierarchy for reflection-fed interface calls) do not write their receiver; accumulator-state rule",
          "Decides shape-level encodability: every way Encode can fail or panic is enumerated; each is a write that cannot fail, the caller's writer, impossible for a File whose init succeeded, or excluded by the tables for every hosted message type. The one origin that cannot be discharged (UTF-8 check vs. arbitrary decoded bytes) is a known finding. Content equality after re-encoding and the fixpoint clause are not decided.",
          "Trusted: bytes.Buffer/hash writes never fail; C15 and C03 results; reflect panic conditions. Not decided: equality of re-decoded content, second round trip, nil container elements.",
          "DESIGN.md 4 C07"),
- "C02": ("other", "exact folding of the definition validator over (profile class x base-type byte x size) joined with the consumer arms read from syntax (arm/table agreement, sign-extension obligation), byte-order discipline, field-target, skip-by-size (incl. both sections on every success path), developer-section, scratch-escape, widening, string-arm (SSA) and readFull exact-fill rules; string-array arm must cut strings inside a loop; every non-invalid time value reaches Set on all paths of parseTimeStamp; constructor value of every row is the invalid value of its base type (absent fields)",
+ "C02": ("other", "exact folding of the definition validator over (profile class x base-type byte x size) joined with the consumer arms read from syntax (arm/table agreement, sign-extension obligation), byte-order discipline, field-target, skip-by-size (incl. both sections on every success path), developer-section, scratch-escape, widening, string-arm (SSA) and readFull exact-fill rules; string-array arm must cut strings inside a loop; every non-invalid time value reaches Set on all paths of parseTimeStamp; constructor value of every row is the invalid value of its base type (absent fields); per-file decoder-state rule",
          "The statement is value-level and is not decided as a whole. Decided are eight structural necessary conditions; each one, when broken, makes some decoded value differ from its wire value (wrong byte order, wrong width or setter, missing sign extension, write to the wrong struct field, unread bytes, skipped developer section, aliasing the scratch buffer, destroyed narrow big-endian fields).",
          "Trusted: evaluator transfer functions; reflect setter semantics; builtin copy. Not decided: equality of every decoded value with its wire value; narrow-coordinate sign padding; string termination; developer-field content.",
          "DESIGN.md 4 C02"),
- "C01": ("other", "exact folding of validateFieldDef over the complete (profile class x base byte x size) product joined with the consumer arms; panic-site census discharged by an interval analysis with guard refinement, linear loop invariants proved inductive by candidate elimination over the paths of the loop body, length-guard and map-initialisation dominance rules, range-loop semantics, table obligations and a short frozen audited list; loop census with ranking arguments; call-graph closure; origin-based nil-safety analysis of every dereference / interface call on the decode path (parameters by call-site fixpoint over the VTA graph, field disciplines init-before-use / set-before-publish, path walk for lazily built globals); explicit panics decided structurally (exhaustive Kind switch, known-implies-valid at every call site, pruned-edge reachability in the cursor walk); ByteOrder read-length rule; counted loops must not be able to wrap their counter",
+ "C01": ("other", "exact folding of validateFieldDef over the complete (profile class x base byte x size) product joined with the consumer arms; panic-site census discharged by an interval analysis with guard refinement, linear loop invariants proved inductive by candidate elimination over the paths of the loop body, length-guard and map-initialisation dominance rules, range-loop semantics, table obligations and a short frozen audited list; loop census with ranking arguments; call-graph closure; origin-based nil-safety analysis of every dereference / interface call on the decode path (parameters by call-site fixpoint over the VTA graph, field disciplines init-before-use / set-before-publish, path walk for lazily built globals); explicit panics decided structurally (exhaustive Kind switch, known-implies-valid at every call site, pruned-edge reachability in the cursor walk); ByteOrder read-length rule; counted loops must not be able to wrap their counter; origin-based validity analysis of reflect.Values (zero-Value receivers) over SSA and the VTA call graph",
          "The exhaustive single-field-definition clause is decided exactly (1.9 M validator points, every accepted point held against its consuming arm). For the rest, every potential panic site and every loop in the functions reachable from the five entry points is enumerated and must carry a discharge; an undischarged site or unclassified loop is reported with its call path. Hanging readers that violate the io.Reader contract, stdlib-internal panics and memory exhaustion are outside.",
          "Trusted: evaluator/interval transfer functions; documented reflect and encoding/binary panic conditions; 7 audited sites (buffer cursor invariant, copy count, invariant panics, dead default arms), each with its reason in checker/c01.go; nil-dereference freedom is covered only by the targeted guard rules (definition slot, profile row, logger, constructor table), not by a general nilness analysis.",
          "DESIGN.md 4 C01"),
- "C19": ("other", "determinism lint (map-order rule with singleton facts, ambient-input and timestamp-flag rules) emitter-agreement shape rules, selection-column read-only rule, exactly-one-entry rule for pick-any map loops (interprocedural length facts plus a re-checked fill chain), version-string path term and nil-checked map lookups over the generator packages (syntax + types + SSA dominance)",
+ "C19": ("other", "determinism lint (map-order rule with singleton facts, ambient-input and timestamp-flag rules) emitter-agreement shape rules, selection-column read-only rule, exactly-one-entry rule for pick-any map loops (interprocedural length facts plus a re-checked fill chain), version-string path term and nil-checked map lookups over the generator packages (syntax + types + SSA dominance); unconditional-import rule on the emitter syntax",
          "Decides two structural necessary conditions of the generator: no iteration-order or ambient dependence in what is emitted (one frozen, reasoned exception), and the three per-field emitters walk the same slice one item per element with the table's struct index equal to the position, the version printed being the pair passed in, disabled rows skipped before the slice is built. Exit status, compilation and byte identity of real runs over workbook subsets need the command to run and are not decided.",
          "Trusted: map iteration is the only nondeterminism source in sequential code without ambient inputs. Not decided: everything that requires running fitgen (see DESIGN.md 5).",
          "DESIGN.md 4 C19"),
